@@ -10,11 +10,16 @@ use robopoker::gameplay::settlement::Settlement;
 use robopoker::gameplay::showdown::Showdown;
 
 fn strength(level: u8) -> Strength {
-    // a ladder of 26 strictly increasing strengths
+    // a ladder of strictly increasing strengths: 26 ordinary ones, then the top of the scale (a king-high straight
+    // flush and the royal flush, the strongest hand there is)
     if level < 13 {
         Strength::from((Ranking::HighCard(Rank::from(level)), Kickers::default()))
-    } else {
+    } else if level < 26 {
         Strength::from((Ranking::OnePair(Rank::from(level - 13)), Kickers::default()))
+    } else if level == 26 {
+        Strength::from((Ranking::StraightFlush(Rank::from(11u8)), Kickers::default()))
+    } else {
+        Strength::from((Ranking::StraightFlush(Rank::from(12u8)), Kickers::default()))
     }
 }
 fn state(s: u8) -> State {
@@ -84,6 +89,13 @@ pub fn run(o: &Opts, _deck: &str) -> String {
                 1 => if i == anchor { top } else { 1 + rng.below(top as u64) as i16 },
                 _ => rng.below(top as u64 + 1) as i16,
             };
+        }
+        // one ledger in four has the royal flush as its best hand (and sometimes the king-high straight flush below it)
+        if rng.chance(0.25) {
+            let below = rng.chance(0.5);
+            for i in 0..n {
+                if level[i] + 1 == nlev { level[i] = 27; } else if below && nlev >= 2 && level[i] + 2 == nlev { level[i] = 26; }
+            }
         }
         // a few malformed ones too (the model must still agree; the oracle skips them)
         if rng.chance(0.03) {
